@@ -434,8 +434,16 @@ def _oracle_bpch(case, res):
     k = len(v['tau0'])
     if k > nt or v['tau0'] != full['tau0'][:k] or v['tau1'] != full['tau1'][:k]:
         return 'prefix of %d bytes presents time bounds %s' % (case['cut'], v['tau0'])
-    if len(v['vars']) != len(full['vars']) and k != 1:
-        return 'prefix of %d bytes presents %d tracers over %d steps, the full file has %d' % (case['cut'], len(v['vars']), k, len(full['vars']))
+    if len(v['vars']) != len(full['vars']):
+        # a cut exactly at the end of a block of the first step leaves a complete file with fewer tracers; any other cut does not
+        c = case['spec']
+        ends, pos = [], 136
+        for b_ in c['blocks']:
+            pos += 44 + 176 + 8 + 4 * c['nx'] * c['ny'] * b_['nz']
+            ends.append(pos)
+        if k != 1 or case['cut'] not in ends or len(v['vars']) != ends.index(case['cut']) + 1:
+            return 'prefix of %d bytes presents %d tracers over %d steps, the full file has %d (blocks of the first step end at %s)' % (
+                case['cut'], len(v['vars']), k, len(full['vars']), ends)
     for a, f_ in zip(v['vars'], full['vars']):
         n = len(f_['bits']) // nt
         if a['key'] != f_['key'] or a['bits'] != f_['bits'][:n * k] or a['shape'][0] != k:
